@@ -111,8 +111,31 @@ fn main() {
             }
             a.reset_max();
             let used_after = a.get_max();
-            println!("{{\"outcome\":\"ok\",\"ret\":{},\"peak_after\":{},\"used_after\":{},\"fits\":{},\"over_refused\":{}}}",
-                     ret, peak_after, used_after, fits, over_refused);
+            // the same probe once the live block is gone: a limit that was installed relative to the usage of the
+            // moment shows only now
+            let mut fits_freed = true;
+            let mut over_refused_freed = true;
+            if used > 0 {
+                a.dealloc(p1, l1);
+                if lim > 0 && lim <= (1 << 24) {
+                    let l = Layout::from_size_align(lim, 1).unwrap();
+                    let p = a.alloc(l);
+                    fits_freed = !p.is_null();
+                    if fits_freed {
+                        a.dealloc(p, l);
+                    }
+                }
+                if lim < (1 << 24) {
+                    let l = Layout::from_size_align(lim + 1, 1).unwrap();
+                    let p = a.alloc(l);
+                    over_refused_freed = p.is_null();
+                    if !over_refused_freed {
+                        a.dealloc(p, l);
+                    }
+                }
+            }
+            println!("{{\"outcome\":\"ok\",\"ret\":{},\"peak_after\":{},\"used_after\":{},\"fits\":{},\"over_refused\":{},\"fits_freed\":{},\"over_refused_freed\":{}}}",
+                     ret, peak_after, used_after, fits, over_refused, fits_freed, over_refused_freed);
         }
         return;
     }
